@@ -51,7 +51,11 @@ ReadVerdict ==
            exp == Expected(ts)
            ok == T.obs.outcome = "ok"
            m == IF ok THEN Matches(T.obs, d) ELSE [numbering |-> FALSE, names |-> FALSE, attrs |-> FALSE, edges |-> FALSE, orders |-> FALSE]
-           dev == IF ok /\ HasDoubleClose(Expand(ts)) THEN AllOf(Matches(T.obs, DenoteDev(Expand(ts)))) ELSE FALSE
+           \* does the named deviation explain the WHOLE observation (graph, or the error it leads to)?
+           dd == DenoteDev(Expand(ts))
+           dev == IF ~HasDoubleClose(Expand(ts)) THEN FALSE
+                  ELSE IF ok THEN Outcome(dd) = "ok" /\ AllOf(Matches(T.obs, dd))
+                  ELSE Outcome(dd) # "ok" /\ T.obs.outcome = Outcome(dd)
        IN [ dom |-> TRUE,
             expected |-> exp,
             fault |-> Fault(d),
